@@ -164,7 +164,7 @@ Proof.
 Qed.
 
 (* ---- where sound criteria come from: the objectives (and validity) depend on the chosen prefix only through terms in which they are
-   monotone, and two prefixes of equal length admit the same suffixes *)
+   monotone, and two prefixes of equal length allow the same suffixes *)
 Lemma exts_length next k : forall p a, In a (exts next k p) -> length a = (length p + k)%nat.
 Proof.
   induction k as [|k IH]; intros p a H; cbn [exts] in H.
